@@ -157,6 +157,60 @@ fn history<const D: usize>(hid: usize, rng: &mut Rng, out: &mut Out, steps: usiz
     }
 }
 
+
+/// long walk of successful flips (k2, k3 and their inverses); only cell sets are reported, so
+/// hundreds of steps stay cheap.  Flips are combinatorial: after many of them the complex is far
+/// from any embedded triangulation, which is where guards that "cannot fire" on fresh Delaunay
+/// triangulations are needed.
+fn walk<const D: usize>(hid: usize, rng: &mut Rng, out: &mut Out, steps: usize, np: usize) {
+    let ps = gens::point_set(rng, D, np);
+    let Some(mut w): Option<World<D>> = hist::start_built::<D>(&ps.pts, 1, rng) else { return };
+    let j = |v: &[usize]| v.iter().map(|x| x.to_string()).collect::<Vec<_>>().join(",");
+    let js = |cs: &[Vec<usize>]| cs.iter().map(|c| j(c)).collect::<Vec<_>>().join(";");
+    out.case(&format!("w{D}_{hid}"), "flipw", &format!("D={D} g={} np={np}", w.g));
+    let cs0 = w.cell_sets();
+    out.line(&format!("cs0 {}", js(&cs0)));
+    let mut done = 0usize;
+    let mut refused_changed = 0usize;
+    let mut tries = 0usize;
+    while done < steps && tries < steps * 60 {
+        tries += 1;
+        let cks: Vec<_> = w.dt.cells().map(|(k, _)| k).collect();
+        if cks.is_empty() { break; }
+        let ck = *rng.pick(&cks);
+        let a = rng.below((D + 1) as u64) as u8;
+        let b = (a + 1 + rng.below(D as u64) as u8) % (D as u8 + 1);
+        let kind = match rng.below(8) { 0 | 1 => 0u64, 2..=5 => 2, 6 => 3, _ => 4 };
+        if kind == 2 && D < 3 { continue; }
+        let before = fingerprint(w.dt.tds());
+        let vs: Vec<_> = w.dt.tds().get_cell(ck).map(|c| c.vertices().to_vec()).unwrap_or_default();
+        let (name, r) = match kind {
+            0 => ("k2", catch(|| w.dt.flip_k2(FacetHandle::new(ck, a)).map_err(|_| ()))),
+            2 => ("k3", catch(|| w.dt.flip_k3(RidgeHandle::new(ck, a, b)).map_err(|_| ()))),
+            3 => ("k2inv", catch(|| w.dt.flip_k2_inverse_from_edge(EdgeKey::new(vs[a as usize], vs[b as usize])).map_err(|_| ()))),
+            _ => {
+                let c3 = (0..=(D as u8)).find(|x| *x != a && *x != b).unwrap_or(0);
+                ("k3inv", catch(|| w.dt.flip_k3_inverse_from_triangle(TriangleHandle::new(vs[a as usize], vs[b as usize], vs[c3 as usize])).map_err(|_| ())))
+            }
+        };
+        match r {
+            Ok(Ok(info)) => {
+                done += 1;
+                let rr = w.vk_ids(&info.removed_face_vertices);
+                let ii = w.vk_ids(&info.inserted_face_vertices);
+                let post = w.cell_sets();
+                out.line(&format!("st {name} {} {} {}", j(&rr), j(&ii), js(&post)));
+            }
+            Ok(Err(())) => { if fingerprint(w.dt.tds()) != before { refused_changed += 1; } }
+            Err(_) => { out.obs("panic", name); break; }
+        }
+    }
+    out.obs("refused_changed", &refused_changed.to_string());
+    out.end();
+    // the state reached by the walk is also judged in full (L1, L2, manifold invariants)
+    w.emit_state(&format!("w{D}_{hid}_end"), "flip", "expect=valid12m", &[], out, false);
+}
+
 pub fn run(cfg: &Cfg, rng: &mut Rng, out: &mut Out) {
     let thorough = cfg.tier == "thorough";
     let nh = if thorough { 40 } else { 5 };
@@ -165,5 +219,11 @@ pub fn run(cfg: &Cfg, rng: &mut Rng, out: &mut Out) {
         history::<3>(h, rng, out, if thorough { 60 } else { 20 });
         history::<4>(h, rng, out, if thorough { 40 } else { 14 });
         history::<5>(h, rng, out, if thorough { 30 } else { 10 });
+    }
+    let nw = if thorough { 12 } else { 3 };
+    for h in 0..nw {
+        walk::<3>(h, rng, out, if thorough { 800 } else { 400 }, 12);
+        walk::<4>(h, rng, out, if thorough { 1200 } else { 600 }, 13 + h % 2);
+        walk::<5>(h, rng, out, if thorough { 600 } else { 300 }, 9);
     }
 }
